@@ -481,6 +481,7 @@ class Num(Val):
         self.grid = None        # integer index grid: value at (i, k) = ai*i + ak*k + c, stored as (ai, ak, c); 1-D vectors use ak = 0
         self.idxseg = None      # 1-D integer index vector as pieces (n, first value, step +-1): arange and concatenations of aranges
         self.fsf = None         # exact value as a multiple of the sampling rate: value = fsf * sampling (sympy expression in the sizes)
+        self.fgrid = None       # 1-D frequency grid: element i = (a + b*i) * sampling, stored as sympy (a, b)
         self.intdt = False      # the value may be held in the INTEGER dtype of integer-typed input data (products can overflow)
         self.rowview = None     # this vector is the row view M[e] of a named local matrix: (name, index AST, {name: id(value)} of the index operands)
         self.conj_of = None     # uid of the array this one is the complex conjugate of
@@ -503,6 +504,7 @@ class Num(Val):
         c.rowview, c.rowof, c.grid, c.idx, c.conj_of = self.rowview, self.rowof, self.grid, self.idx, self.conj_of
         c.intdt = self.intdt
         c.fsf = self.fsf
+        c.fgrid = self.fgrid
         c.idxseg = self.idxseg
         return c
 
@@ -749,6 +751,9 @@ def num_join(a, b):
     r.cplx = a.cplx if a.cplx == b.cplx else (True if (a.cplx or b.cplx) and (a.zero or b.zero) and False else None)
     if a.cplx is not None and b.cplx is not None and a.cplx != b.cplx:
         r.cplx = None
+    if a.zero != b.zero and not a.is_array and not b.is_array:
+        # a scalar accumulator: the literal 0 it starts from has no dtype of its own
+        r.cplx = b.cplx if a.zero else a.cplx
     r.rv = True if (a.rv and b.rv) else None
     r.shape = shape_join(a.shape, b.shape)
     r.zero = a.zero and b.zero
@@ -816,6 +821,18 @@ def broadcast(s1, s2):
         else:
             out.append(None)     # mismatch is numpy's business, not ours
     return tuple(out)
+
+
+class NamedTupleV(Val):
+    """the class made by collections.namedtuple(name, fields): calling it builds a tuple whose items also answer to the field names"""
+
+    def __init__(self, name, fields):
+        self.name = name
+        self.fields = list(fields)
+        self.taint = frozenset()
+
+    def __repr__(self):
+        return 'namedtuple(%s)' % self.name
 
 
 class PartialV(Val):
